@@ -106,6 +106,7 @@ def _minmax(I, args, kw, node, is_min):
         I.raise_builtin("ValueError", node)
     if kw.get("key") is not None:
         raise OutsideSubset("min/max with key", node)
+    items = [I.unwrap_opt(x, "min/max argument") if isinstance(x, Opt) else x for x in items]
     cur = items[0]
     for x in items[1:]:
         if isinstance(cur, tuple) or isinstance(x, tuple):
@@ -404,6 +405,8 @@ def b_zip(I, args, kw, node):
 @builtin("sum")
 def b_sum(I, args, kw, node):
     tot = args[1] if len(args) > 1 else 0
+    if isinstance(args[0], Abstract) and hasattr(args[0], "builtin_sum"):
+        return I.binop(ast.Add(), tot, args[0].builtin_sum(I), node)
     for x in I.iterate(args[0], node):
         tot = I.binop(ast.Add(), tot, x, node)
     return tot
@@ -652,6 +655,31 @@ class PackedBytes(Abstract):
     def codes(self):
         return self.fmt.replace(">", "").replace("!", "")
 
+    def getslice(self, I, lo, hi, st, node=None):
+        """s[lo:hi] with concrete byte offsets that fall on field boundaries (big-endian / network order formats)"""
+        if st is not None or self.fmt[:1] not in ">!":
+            raise OutsideSubset("slice of packed bytes", node)
+        total = _struct.calcsize(self.fmt)
+        lo = 0 if lo is None else concrete_int(lo)
+        hi = total if hi is None else concrete_int(hi)
+        if lo is None or hi is None:
+            raise OutsideSubset("slice of packed bytes at symbolic offsets", node)
+        if lo < 0:
+            lo += total
+        if hi < 0:
+            hi += total
+        hi = min(hi, total)
+        pos, cs, vs = 0, "", []
+        for c, v in zip(self.codes(), self.vals):
+            n = _struct.calcsize(">" + c)
+            if pos >= lo and pos + n <= hi:
+                cs += c
+                vs.append(v)
+            elif pos < hi and pos + n > lo:
+                raise OutsideSubset("slice of packed bytes cuts a field", node)
+            pos += n
+        return PackedBytes(">" + cs, vs)
+
     def binop(self, I, op, other, reflected):
         if isinstance(op, ast.Add) and isinstance(other, bytes) and len(other) > 0 and self.fmt[:1] in ">!":
             other = PackedBytes(">" + "B" * len(other), list(other))
@@ -683,6 +711,9 @@ INT_FMT = {"b": (8, True), "B": (8, False), "h": (16, True), "H": (16, False), "
            "I": (32, False), "l": (32, True), "L": (32, False), "q": (64, True), "Q": (64, False)}
 
 
+F32ROUND = z3.Function("round_to_binary32", z3.RealSort(), z3.RealSort())
+
+
 class StructModel(Abstract):
     def __init__(self, fmt):
         self.fmt = fmt
@@ -709,10 +740,14 @@ class StructModel(Abstract):
         # range check: struct.error outside the format's range
         out = []
         for c, v in zip(self.code, vals):
+            if isinstance(v, Opt):
+                v = I.unwrap_opt(v, "struct.pack argument")
             if c in INT_FMT:
                 bits, signed = INT_FMT[c]
                 lo, hi = (-(1 << (bits - 1)), (1 << (bits - 1)) - 1) if signed else (0, (1 << bits) - 1)
                 v = to_z3(v)
+                if z3.is_bool(v):
+                    v = z3.If(v, 1, 0)          # True/False pack as 1/0
                 if z3.is_bv(v):
                     inr = z3.And(v >= z3.BitVecVal(lo, v.size()), v <= z3.BitVecVal(hi, v.size())) \
                         if v.size() > bits else z3.BoolVal(True)
@@ -720,6 +755,12 @@ class StructModel(Abstract):
                     inr = z3.And(v >= lo, v <= hi)
                 if not I.decide(inr, "struct-range"):
                     raise RaiseSig(ExcValue("struct.error"))
+            elif c == "f" and not (is_z3(v) and z3.is_fp(v)):
+                # binary32 storage of a real-valued number: what comes back is the rounded value (class A: monotone
+                # rounding function, uninterpreted)
+                v = to_z3(v)
+                v = F32ROUND(z3.ToReal(v) if z3.is_int(v) else v)
+                I.notes.add("assume:struct 'f' stores round-to-binary32(x) (uninterpreted rounding function)")
             out.append(v)
         return PackedBytes(self.fmt, out)
 
@@ -727,7 +768,7 @@ class StructModel(Abstract):
         if isinstance(data, bytes):
             return _struct.unpack(self.fmt, data)
         if isinstance(data, PackedBytes):
-            if data.fmt == self.fmt:
+            if data.fmt == self.fmt or (data.fmt[:1] in ">!" and self.fmt[:1] in ">!" and data.codes() == self.code):
                 return data.vals
             # reinterpretation between same-width formats
             if len(self.code) == 1 and len(data.fmt.lstrip("<>!=@")) == 1:
